@@ -505,6 +505,9 @@ func (e *Enc) contractCall(fr *Frame, cs *callSite, fc *FuncContract) Val {
 	}
 	if fc.Extern || fc.Trusted {
 		e.note("assumed contract (not verified here): " + short)
+		if fc.Extern {
+			e.usedExterns[cs.key] = fc
+		}
 	}
 	// frame
 	post := pre.clone()
